@@ -419,3 +419,93 @@ Definition fs_init (content : option bytes) (uid gid mode : N) (lnk : bool) : fs
   | Some c => mkFs [(PHosts, mkFile c uid gid mode 1)] 2 lnk
   | None => mkFs [] 2 lnk
   end.
+
+(* ------------------------------------------------------------------ *)
+(* The helper's map over the HOST lines of one session (update histories) *)
+
+(* hostmap.get(name) *)
+Fixpoint hm_get (name : bytes) (hm : list entry) : option bytes :=
+  match hm with
+  | [] => None
+  | (n, i) :: r => if bytes_eqb n name then Some i else hm_get name r
+  end.
+
+(* the helper's map after the HOST lines (name, ip) of one session, in arrival order *)
+Definition hm_after (upd : list entry) : list entry :=
+  fold_left (fun hm e => hm_set (fst e) (snd e) hm) upd [].   (* = hm_from [] upd *)
+
+(* specification side: the address of the LAST update for `name` in an update history *)
+Fixpoint last_addr (name : bytes) (upd : list entry) : option bytes :=
+  match upd with
+  | [] => None
+  | (n, i) :: r =>
+      match last_addr name r with
+      | Some j => Some j
+      | None => if bytes_eqb n name then Some i else None
+      end
+  end.
+
+(* one helper's view of a history of hops: its map *)
+Definition sess_step (p : N) (hm : list entry) (h : hop) : list entry :=
+  match h with
+  | HHost q n i => if q =? p then hm_set n i hm else hm
+  | HEnd q => if q =? p then [] else hm
+  end.
+
+(* hostmap after the updates `upd` starting from `hm`: firewall.main's HOST loop, hostmap[name] = ip each time *)
+Definition hm_from (hm : list entry) (upd : list entry) : list entry :=
+  fold_left (fun hm e => hm_set (fst e) (snd e) hm) upd hm.
+
+(* the hops of one session of port p receiving the updates `upd` *)
+Definition host_hops (p : N) (upd : list entry) : list hop := map (fun e => HHost p (fst e) (snd e)) upd.
+
+(* ------------------------------------------------------------------ *)
+(* Decoding.  open(HOSTSFILE).read() is a text-mode read: the WHOLE file is decoded in the locale
+   encoding (UTF-8) before anything else happens.  A byte sequence that is not well-formed UTF-8
+   (Unicode table 3-7, what CPython's strict decoder accepts: no overlong forms, no surrogates,
+   nothing above U+10FFFF) raises UnicodeDecodeError - a ValueError, not caught by
+   `except IOError` (firewall.py:33) - so rewrite_etc_hosts is left before os.stat, before the
+   backup, before the temporary is created.  Well-formed input round-trips byte for byte
+   (decode, then encode on write), which is why the machine above works on bytes. *)
+Definition in_rng (lo hi : N) (a : ascii) : bool := (lo <=? N_of_ascii a) && (N_of_ascii a <=? hi).
+
+Fixpoint utf8_ok (l : bytes) : bool :=
+  match l with
+  | [] => true
+  | b0 :: r =>
+      let n := N_of_ascii b0 in
+      if n <=? 127 then utf8_ok r
+      else if in_rng 194 223 b0 then
+        match r with
+        | b1 :: r1 => in_rng 128 191 b1 && utf8_ok r1
+        | _ => false
+        end
+      else if in_rng 224 239 b0 then
+        match r with
+        | b1 :: b2 :: r2 =>
+            (if n =? 224 then in_rng 160 191 b1 else if n =? 237 then in_rng 128 159 b1 else in_rng 128 191 b1)
+            && in_rng 128 191 b2 && utf8_ok r2
+        | _ => false
+        end
+      else if in_rng 240 244 b0 then
+        match r with
+        | b1 :: b2 :: b3 :: r3 =>
+            (if n =? 240 then in_rng 144 191 b1 else if n =? 244 then in_rng 128 143 b1 else in_rng 128 191 b1)
+            && in_rng 128 191 b2 && in_rng 128 191 b3 && utf8_ok r3
+        | _ => false
+        end
+      else false
+  end.
+
+(* rewrite_etc_hosts(hostmap, port) on a hosts file of ARBITRARY bytes *)
+Definition rewrite_dec (port : N) (hm : list entry) (s : fsys) : inst * fsys * list prim :=
+  if utf8_ok (hosts_data s) then rewrite_fs port hm s
+  else (with_pc (start port hm) AtCrash, s, [OpRead true]).
+
+(* restore_etc_hosts(hostmap, port) likewise; true = the exception escaped (firewall.main catches it, :421) *)
+Definition restore_dec (port : N) (hm : list entry) (s : fsys) : fsys * list prim * bool :=
+  match hm with
+  | [] => (s, [], false)
+  | _ :: _ => let '(i, s', tr) := rewrite_dec port [] s in
+              (s', tr, match i_pc i with AtCrash => true | _ => false end)
+  end.
